@@ -37,6 +37,9 @@ INNER1 == Struct(<<Fld(n_attr, "attr", STR), Fld(n_c, "elem", Opt(INNER2))>>)
 n_items == <<105,116,101,109,115>>  n_Name == <<78,97,109,101>>  n_Num == <<78,117,109>>
 CHOICE3 == [t |-> "enum", variants |-> <<Var(n_One, "unit", STR), Var(n_Name, "newtype", STR), Var(n_Num, "newtype", NUM), Var(n_text, "text", STR)>>]
 n_n == <<110>>  n_id == <<105,100>>  n_hashes == <<104,97,115,104,101,115>>  n_size == <<115,105,122,101>>
+n_flag == <<102,108,97,103>>  n_ratio == <<114,97,116,105,111>>  n_ch == <<99,104>>
+BOOL == [t |-> "bool"]
+FLOAT == [t |-> "float"]
 BIGNUMS == { <<48>>, <<57,50,50,51,51,55,50,48,51,54,56,53,52,55,55,53,56,48,56>>, <<49,56,52,52,54,55,52,52,48,55,51,55,48,57,53,53,49,54,49,53>> }   \* 0, 2^63, 2^64-1
 NEGNUMS == { <<48>>, <<45,57,50,50,51,51,55,50,48,51,54,56,53,52,55,55,53,56,48,56>>, <<57,50,50,51,51,55,50,48,51,54,56,53,52,55,55,53,56,48,55>> }      \* 0, -2^63, 2^63-1
 NODE2 == Struct(<<Fld(n_a, "elem", List(STR)), Fld(n_b, "elem", List(STR))>>)
@@ -63,6 +66,8 @@ TypeOf(name) ==
       [] name = "F25" -> Struct(<<Fld(n_value, "value", List(CHOICE3))>>)
       [] name = "F26" -> Struct(<<Fld(n_a, "elem", List(NODE2)), Fld(n_n, "elem", STR), Fld(n_b, "elem", List(STR))>>)
       [] name = "F27" -> Struct(<<Fld(n_id, "attr", NUM), Fld(n_hashes, "attr", SList(NUM)), Fld(n_size, "elem", NUM), Fld(n_text, "text", NUM)>>)
+      [] name = "F28" -> Struct(<<Fld(n_flag, "attr", BOOL), Fld(n_ratio, "attr", FLOAT), Fld(n_ch, "elem", STR), Fld(n_flag, "elem", List(BOOL)), Fld(<<114>>, "elem", FLOAT)>>)
+            \* (no $text next to child elements: mixed content is documented only through $value choices)
       [] name = "H01" -> Struct(<<Fld(n_m, "elem", [t |-> "map"])>>)
       [] OTHER -> [t |-> "unknown"]       \* outside the schema language: the model has no opinion (SerTree = Fail)
 RootBytes(name) ==
@@ -86,6 +91,7 @@ RootBytes(name) ==
       [] name = "F25" -> <<70,50,53>>
       [] name = "F26" -> <<70,50,54>>
       [] name = "F27" -> <<70,50,55>>
+      [] name = "F28" -> <<70,50,56>>
       [] name = "H01" -> <<72,48,49>>
       [] name = "H02" -> <<72,48,50>>
       [] name = "H05" -> <<72,48,53>>
@@ -160,6 +166,11 @@ ValuesOf(name, Pl, mode) ==       \* mode "rt": the documented round-trippable d
             {O(<<<<n_a, A(xs)>>, <<n_n, S(<<97>>)>>, <<n_b, A(ys)>>>>) : xs \in Seqs(N2, 2), ys \in Seqs({S(<<98>>)}, 2)}
       [] name = "F27" -> {O(<<<<<<64>> \o n_id, Nm(a)>>, <<<<64>> \o n_hashes, A(xs)>>, <<n_size, Nm(b)>>, <<n_text, Nm(c)>>>>) :
                             a \in BIGNUMS, xs \in Seqs({Nm(x) : x \in BIGNUMS}, 2), b \in BIGNUMS, c \in NEGNUMS}
+      [] name = "F28" ->
+            LET Fl == {<<49, 46, 53>>, <<45, 48, 46, 50, 53>>, <<49, 48, 48>>}          \* 1.5  -0.25  100
+                Bl == {[b |-> 0], [b |-> 1]} IN
+            {O(<<<<<<64>> \o n_flag, a>>, <<<<64>> \o n_ratio, [f |-> r]>>, <<n_ch, S(c)>>, <<n_flag, A(xs)>>, <<<<114>>, [f |-> u]>>>>) :
+                a \in Bl, r \in Fl, c \in {<<97>>, <<60>>, <<38>>, <<195, 169>>, <<34>>}, xs \in Seqs(Bl, 2), u \in Fl}
       [] name = "H01" -> {O(<<<<n_m, O(ps)>>>>) : ps \in {<<<<k, S(<<97>>)>>>> : k \in {<<>>, <<60>>, <<97, 32, 98>>, <<49, 97>>, <<97>>, <<97, 62>>, <<195, 169>>, <<45, 97>>, <<97, 47>>, <<97, 47, 98>>, <<97, 34>>, <<97, 61>>, <<97, 38>>}}}
       \* outside the schema language (C13 only): Option without skip, nested sequences, unit variants named like markup
       [] name = "H02" -> {O(<<<<<<111>>, x>>, <<<<110>>, A(ys)>>>>) : x \in {None, S(<<60>>)},
@@ -172,5 +183,5 @@ ValuesOf(name, Pl, mode) ==       \* mode "rt": the documented round-trippable d
 \* root tags passed to the serializer (to_string_with_root); the default is the type name
 HostileRoots == { <<97, 47>>, <<97, 47, 98>>, <<>>, <<60>>, <<97, 32, 98>>, <<49, 97>>, <<97, 62>>, <<195, 169>>, <<120, 58, 121>>, <<45, 97>>, <<114>> }
 
-RTTypes == {"F01", "F02", "F03", "F04", "F05", "F07", "F08", "F11", "F15", "F16", "F17", "F18", "F19", "F20", "F22", "F23", "F24", "F25", "F26", "F27"}
+RTTypes == {"F01", "F02", "F03", "F04", "F05", "F07", "F08", "F11", "F15", "F16", "F17", "F18", "F19", "F20", "F22", "F23", "F24", "F25", "F26", "F27", "F28"}
 =============================================================================
